@@ -82,7 +82,7 @@ void AppendDomain(util::Serializer &dump, const std::string domain)
  * \param   parser  成功后停在域名之后
  * \param   domain  提取到的域名
  *
- * \return  false   压缩指针成环
+ * \return  false   数据不完整、压缩指针指向包外或成环
  */
 bool FetchDomain(util::Deserializer &parser, std::string &domain)
 {
@@ -95,14 +95,18 @@ bool FetchDomain(util::Deserializer &parser, std::string &domain)
 
     for (;;) {
         uint8_t len = 0;
-        reader >> len;
+        if (!reader.fetch(len))
+            return false;
+
         if (len == 0)
             break;
 
         //! 处理压缩的字串
         if ((len & 0xc0) == 0xc0) {
             uint8_t offset_low = 0;
-            reader >> offset_low;
+            if (!reader.fetch(offset_low))
+                return false;
+
             uint16_t offset = (len & 0x3f) << 8 | offset_low;
 
             if (!is_jumped) {
@@ -113,7 +117,8 @@ bool FetchDomain(util::Deserializer &parser, std::string &domain)
             if (++jump_times > reader.size() / 2)
                 return false;
 
-            reader.set_pos(offset);
+            if (!reader.set_pos(offset))
+                return false;
             continue;
         }
 
@@ -122,7 +127,8 @@ bool FetchDomain(util::Deserializer &parser, std::string &domain)
         first = false;
 
         char str[len + 1];
-        reader.fetch(str, len);
+        if (!reader.fetch(str, len))
+            return false;
         str[len] = '\0';
         oss << str;
     }
